@@ -138,7 +138,7 @@ class StreamRun:
 
     def call(self, coro) -> str:
         try:
-            self.loop.run_until_complete(coro)
+            self.loop.run_until_complete(asyncio.wait_for(coro, 5))
             return "ok"
         except BaseException as err:  # noqa: BLE001
             return res_of(err)
